@@ -6,6 +6,7 @@ package symexec
 // it is never guessed.
 
 import (
+	"strings"
 	"os"
 	"encoding/json"
 	"fmt"
@@ -166,8 +167,62 @@ func strSlice(ss []string) value {
 	return out
 }
 
+// jsonAssign stores a decoded JSON value into the destination pointer of Unmarshal / Decode.
+func jsonAssign(dstv value, out any) {
+	// destination must be *any or a pointer to a map / slice / scalar variable
+	dst, ok := dstv.(iface)
+	if !ok || dst.t == nil {
+		panic(pathAbort{"unsupported: json destination"})
+	}
+	p, ok := dst.v.(*value)
+	if !ok {
+		panic(pathAbort{"unsupported: json destination"})
+	}
+	res := fromGo(out)
+	if pt, ok := dst.t.Underlying().(*types.Pointer); ok {
+		if _, isIface := pt.Elem().Underlying().(*types.Interface); !isIface {
+			rf, _ := res.(iface)
+			if rf.t == nil {
+				res = zero(pt.Elem())
+			} else if types.Identical(rf.t.Underlying(), pt.Elem().Underlying()) {
+				res = rf.v
+			} else {
+				panic(pathAbort{"unsupported: json decode into " + pt.Elem().String()})
+			}
+		}
+	}
+	*p = res
+}
+
+// jsonDec is the engine's json.Decoder over a *strings.Reader of the target program.
+type jsonDec struct{ r *value }
+
 func init() {
 	br := map[string]libFn{
+		"encoding/json.NewDecoder": func(i *interpreter, fr *frame, a []value) (value, bool) {
+			rd, ok := a[0].(iface)
+			if !ok || rd.t == nil || rd.t.String() != "*strings.Reader" {
+				panic(pathAbort{"unsupported: json.NewDecoder on a reader other than *strings.Reader"})
+			}
+			return newNative(&jsonDec{r: rd.v.(*value)}), true
+		},
+		"(*encoding/json.Decoder).Decode": func(i *interpreter, fr *frame, a []value) (value, bool) {
+			d := getNative(a[0]).(*jsonDec)
+			st := (*d.r).(structure) // strings.Reader{s string, i int64, prevRune int}
+			str, ok1 := st[0].(string)
+			pos, ok2 := st[1].(int64)
+			if !ok1 || !ok2 {
+				panic(pathAbort{"unsupported: json.Decoder on symbolic text"})
+			}
+			dec := json.NewDecoder(strings.NewReader(str[pos:]))
+			var out any
+			err := dec.Decode(&out)
+			if err == nil {
+				jsonAssign(a[1], out)
+				st[1] = pos + dec.InputOffset()
+			}
+			return i.mkError(fr, err), true
+		},
 		"encoding/json.Marshal": func(i *interpreter, fr *frame, a []value) (value, bool) {
 			mustConcrete("json.Marshal", a[0])
 			b, err := json.Marshal(toGo(a[0]))
@@ -178,30 +233,7 @@ func init() {
 			var out any
 			err := json.Unmarshal(valuesToBytes(a[0]), &out)
 			if err == nil {
-				// destination must be *any
-				dst, ok := a[1].(iface)
-				if !ok || dst.t == nil {
-					panic(pathAbort{"unsupported: json.Unmarshal destination"})
-				}
-				p, ok := dst.v.(*value)
-				if !ok {
-					panic(pathAbort{"unsupported: json.Unmarshal destination"})
-				}
-				res := fromGo(out)
-				if pt, ok := dst.t.Underlying().(*types.Pointer); ok {
-					if _, isIface := pt.Elem().Underlying().(*types.Interface); !isIface {
-						// destination is a concrete map / slice / scalar variable
-						rf, _ := res.(iface)
-						if rf.t == nil {
-							res = zero(pt.Elem())
-						} else if types.Identical(rf.t.Underlying(), pt.Elem().Underlying()) {
-							res = rf.v
-						} else {
-							panic(pathAbort{"unsupported: json.Unmarshal into " + pt.Elem().String()})
-						}
-					}
-				}
-				*p = res
+				jsonAssign(a[1], out)
 			}
 			return i.mkError(fr, err), true
 		},
